@@ -30,6 +30,8 @@ func registerReplay[C any](property, test string, check func(C) error) {
 		if err := json.Unmarshal(raw, &c); err != nil {
 			return fmt.Errorf("replay file does not decode: %w", err)
 		}
+		vt.ApplyEnvOf(c)
+		defer vt.Env{}.Apply()
 		return vt.Safe(func() error { return check(c) })
 	}
 }
